@@ -593,6 +593,8 @@ int main(int argc, char *argv[])
       rl_attempted_completion_function = command_name_completion;
       line = readline(prompt);
 
+      if (line == NULL) { break; }
+
       if (!(line == NULL || line[0] == 0))
       {
         add_history(line);
